@@ -126,6 +126,7 @@ func treeFingerprint(repo string) string {
 }
 
 type agg struct {
+	watchdogRetries    int
 	runs, nontriv      int
 	hashes             map[string]struct{}
 	ntHashes           map[string]struct{}
@@ -295,6 +296,10 @@ func cmdCheck(args []string) int {
 		if res.Trouble != "" && trouble == "" {
 			trouble = fmt.Sprintf("seed %d: %s\n%s", res.Seed, res.Trouble, strings.Join(tail(res.Log, 40), "\n"))
 			continue
+		}
+		if res.WatchdogRetry {
+			a.watchdogRetries++
+			fmt.Fprintf(os.Stderr, "note: seed %d hit the real-time watchdog once and completed normally when repeated in a fresh process\n", res.Seed)
 		}
 		if res.TimedOut && trouble == "" {
 			trouble = fmt.Sprintf("seed %d: watchdog: run exceeded the real-time limit\n%s", res.Seed, lastN(res.CrashText, 6000))
@@ -484,6 +489,7 @@ func writeEvidence(vdir string, spec *PropSpec, tier string, seed int64, a *agg,
 		"determinism_reexecutions":    a.reexec,
 		"known_findings_hit":          a.knownHits,
 		"emulator_crashes":            a.crashes,
+		"watchdog_retries":            a.watchdogRetries,
 		"profiles":                    a.profiles,
 		"workers":                     workers,
 		"build_s":                     buildSecs,
